@@ -20,7 +20,7 @@ def expected_tables(threads):
     tp, pn = {}, {}
     for tid, pid, name in threads:
         tp[tid] = pid
-        pn[pid] = name
+        pn[pid] = name.split('\x00')[0]        # char command[20] is a C string
     return tp, pn
 
 
